@@ -79,7 +79,8 @@ def presence_edges(ctx: Context, cfg, T: Terms, key: int, container_ok):
         e = n.exprs[0]
         m = is_membership(e)
         if m is not None:
-            if ctx.const(cfg.func, m[0], None) == key and container_ok(strip_sites(T.of(cfg, n, m[1]))):
+            # the key as a constant expression, or a local bound to it (parameter of an inlined helper)
+            if (ctx.const(cfg.func, m[0], None) == key or strip_sites(T.of(cfg, n, m[0])) == ("const", key)) and container_ok(strip_sites(T.of(cfg, n, m[1]))):
                 edges += cfg.out_edges(n, ("T",) if m[2] else ("F",))
             continue
         t = strip_sites(T.of(cfg, n, e))
